@@ -88,6 +88,19 @@ def calib(cell):
             out.append({'msg': f'baseline given in {u0n}' + (f' (re-displayed in {redisplay})' if redisplay else '') + f', second measurement in {u1n}: modifier {m_u!r} '
                                f'(all in fps: {ref_mod!r}), velocity at the second temperature {g_u!r} fps instead of {v0 + dv}', 'key': None})
             break
+    # calibration replaces whatever modifier the ammunition had: one stated at construction, or one from an earlier calibration
+    for pre in ('stated 0.02', 'stated -0.01', 'calibrated before with another measurement', 'calibrated twice'):
+        n += 1
+        a_r = pb.Ammo(dm, FPS(v0), U(t0u)(t0), temp_modifier={'stated 0.02': 0.02, 'stated -0.01': -0.01}.get(pre, 0.0), use_powder_sensitivity=True)
+        if pre == 'calibrated before with another measurement':
+            a_r.calc_powder_sens(FPS(v0 - 0.5 * dv + 7.0), temp(t1c + 3.0))
+        if pre == 'calibrated twice':
+            a_r.calc_powder_sens(FPS(v0 + dv), temp(t1c))
+        m_r = a_r.calc_powder_sens(FPS(v0 + dv), temp(t1c))
+        g_r = a_r.get_velocity_for_temp(temp(t1c)) >> FPS
+        if abs(g_r - (v0 + dv)) > 1e-9 * v0 or m_r != a_r.temp_modifier:
+            out.append({'msg': f'ammunition with a modifier already in place ({pre}) calibrated with {v0 + dv} fps @ {t1c} C: gives {g_r!r} fps at that temperature (modifier {a_r.temp_modifier!r})', 'key': None})
+            break
     # calibrated from a second measurement
     a = pb.Ammo(dm, FPS(v0), U(t0u)(t0), use_powder_sensitivity=True)
     m = a.calc_powder_sens(FPS(v0 + dv), temp(t1c))
